@@ -429,8 +429,10 @@ func (p *Process) stopProcess(cancelReadinessFuncs bool) error {
 		log.Debug().Msgf("process %s is in state %s not shutting down", p.getName(), p.getStatusName())
 		// prevent pending process from running
 		if p.stoppedBeforeLaunch() {
-			// release whoever waits for this instance; it will not launch anymore
-			p.compareAndSetState(types.ProcessStateTerminating, types.ProcessStatePending)
+			// release whoever waits for this instance; it will not launch anymore. Its
+			// goroutine may go on waiting for a dependency for a long time (for ever, if the
+			// dependency keeps restarting): the process is done as far as anybody can tell
+			p.compareAndSetState(types.ProcessStateCompleted, types.ProcessStatePending)
 			p.finish("")
 		}
 		return nil
@@ -570,7 +572,11 @@ func (p *Process) finish(state string) {
 		p.readyCancelFn()
 	}
 	if state != "" {
-		p.setState(state)
+		// a final state recorded meanwhile (the process was stopped while it was pending)
+		// stays: only a process that is still on its way can end
+		p.compareAndSetState(state,
+			types.ProcessStatePending, types.ProcessStateRunning, types.ProcessStateLaunching, types.ProcessStateLaunched,
+			types.ProcessStateRestarting, types.ProcessStateTerminating)
 	}
 	p.updateProcState()
 	// release processes waiting for this one to print its ready log line or to start:
